@@ -31,3 +31,8 @@ def _progress(ctx):
 
 
 STRUCTURAL = (globals().get('STRUCTURAL') or []) + [_progress]
+
+FUNCTIONS = FUNCTIONS + [q for q in PARSE_SMALL if q not in FUNCTIONS]
+STRUCTURAL = (globals().get('STRUCTURAL') or []) + [dispatch_structural]
+TRUSTED = list(TRUSTED) + [A_TOK]
+ASSUMPTIONS = TRUSTED
